@@ -424,7 +424,10 @@ func c04Bounds(c *Ctx, r *Report) {
 						continue
 					}
 					sz := p.lin(x.Len)
-					report("C04.R2", in, "make", sz.ok && p.entails(b, sz, 66560), "size <= 66560")
+					// the length of an object that already exists in memory (plus a small constant) is not a
+					// number a peer can choose beyond what it has already made the process hold
+					existing := sz.ok && sz.neg == "" && strings.HasPrefix(string(sz.pos), "len(") && sz.c >= 0 && sz.c <= 4096
+					report("C04.R2", in, "make", sz.ok && (existing || p.entails(b, sz, 66560)), "size <= 66560 (or the length of an existing object)")
 				case *ssa.BinOp:
 					if x.Op != token.QUO && x.Op != token.REM {
 						continue
